@@ -333,6 +333,22 @@ def Backend.hasBatch : Backend → Bool
 /-- `storage.Purger` -/
 def Backend.hasPurge : Backend → Bool
   | .bbolt => true | _ => false
+
+/-- The segments of a key between `/` separators. -/
+def keySegments : List Char → List (List Char)
+  | [] => [[]]
+  | c :: cs =>
+    match keySegments cs with
+    | [] => [[c]]   -- unreachable: the result is never empty
+    | seg :: rest => if c = '/' then [] :: seg :: rest else (c :: seg) :: rest
+
+/-- Which keys a backend takes. hashmap, bbolt and badger take every key as an opaque string. fstree stores key
+    `k` in the file `filepath.Join(basePath, k)` — `Join` cleans the path — and `buildFilePath` refuses every key
+    whose cleaned path is not `basePath/k` (it leaves the base directory, or `Clean` changed it): accepted are
+    exactly the clean relative paths, i.e. keys without an empty, `.` or `..` segment. -/
+def Backend.acceptsKey : Backend → String → Bool
+  | .fstree, k => (keySegments k.toList).all (fun s => s != [] && s != ['.'] && s != ['.', '.'])
+  | _, _ => true
 /-- `MaintainRecordStates` implemented (fstree, badger: `TODO`, returns nil) — as found in the source on this run
     (`PB.Gen.DbTime`, regenerated by harness/cmd/extract/dbtime.go). -/
 def Backend.maintains : Backend → Bool
